@@ -36,13 +36,12 @@ def run(tier, seed, t0, only=None):
     from ..mirsym import binrun
     from . import bingroups
     from ..mirsym import sercheck
+    binrun.refresh_mir()
     bs = bingroups.c03_groups(tier)
     ss = bingroups.ser_groups(tier, 'C03')
     if only:
         bs = [g for g in bs if any(g['id'].startswith(o) for o in only)]
         ss = [g for g in ss if any(g['id'].startswith(o) for o in only)]
-    if bs or ss:
-        binrun.refresh_mir()
     if bs:
         obs += binrun.run(bs, ('C03',))
     if ss:
